@@ -11,7 +11,7 @@
 From Coq Require Import List String ZArith.
 Import ListNotations.
 From Anthem Require Import Syntax.Fol Syntax.Asp Sem.Domain Sem.Sat Model.Problem Model.ProblemPrint
-  Model.Transition Proofs.GammaOk Gen.Preamble Proofs.PreambleOk Proofs.ChainOk.
+  Model.Transition Proofs.GammaOk Gen.Preamble Proofs.PreambleOk Proofs.StrongOk Proofs.ChainOk Proofs.ChainRename.
 Open Scope string_scope.
 
 (* every axiom of the preamble holds in the standard structure: all of Z, all strings *)
@@ -21,15 +21,59 @@ Proof. exact preamble_ok. Qed.
 Print Assumptions C12_preamble.
 
 (* every emitted symbol_order axiom is true under every interpretation of predicates and
-   placeholders and every assignment (symbolic constants denote themselves; the standard order
-   of symbols is the lexicographic byte order) *)
+   placeholders and every assignment WHEN EVERY PRINTED NAME DENOTES ITSELF (the standard order of
+   symbols is the lexicographic byte order).  [p] is the problem as printed, i.e. AFTER
+   Problem::rename_conflicting_symbols: a constant `a` that equals a 0-ary predicate of the problem
+   is printed `a__s`, and this theorem reads `a__s` as the string "a__s" - NOT as the program
+   constant `a` it stands for.  For the constants the names stand for the chain can be false:
+   C12_chain_refuted_after_rename below (audit A2; findings F8b, F8c).  PARTIAL in that sense. *)
 Theorem C12_chain_true :
   forall (p : problem) (f : formula), In f (symbol_order p) ->
   forall (FI : fint) (M : pint) (e : env), csat FI M e f.
 Proof. exact chain_true. Qed.
 Print Assumptions C12_chain_true.
 
-(* the chain runs through every symbolic constant of the problem *)
+(* The chain read through the renaming.  p is the problem BEFORE rename_conflicting_symbols;
+   renamed_symbol p s = s ++ "__s" if s/0 is a predicate of p, else s (the name printed for s);
+   chain_true_for_originals p := every axiom `x < y` of the chain printed for the renamed problem
+   holds for all constants s1, s2 of p printed as x, y.
+   REFUTED: the problem anthem builds for  `a. q :- a, a1 < a.`  vs  `a. q :- a.`
+   (output: q/0. output: a/0.): the constant a is printed a__s, the emitted axiom is
+   p__less__(f__symbolic__(a1), f__symbolic__(a__s)); it is true of the strings "a1", "a__s" and
+   false of the constants a1, a.  A genuine defect (the problems of two non-equivalent programs
+   all become provable); known findings F8c (C02, C12) and F8b (C03). *)
+Theorem C12_chain_refuted_after_rename :
+  ~ chain_true_for_originals pb_f8c /\
+  (forall (FI : fint) (M : pint) (e : env),
+     csat FI M e (symbol_order_formula ("a1", "a__s")) /\ ~ csat FI M e (symbol_order_formula ("a1", "a"))).
+Proof. exact chain_refuted_after_rename. Qed.
+Print Assumptions C12_chain_refuted_after_rename.
+
+(* ... and with it the meaning of the program's own comparison *)
+Theorem C12_rename_changes_meaning :
+  let conf := filter (fun q => Nat.eqb (parity q) 0) (problem_predicates pb_f8c) in
+  rcs_formula conf (cmp_lt "a1" "a") = cmp_lt "a1" "a__s" /\
+  forall (FI : fint) (M : pint) (e : env),
+    ~ csat FI M e (cmp_lt "a1" "a") /\ csat FI M e (rcs_formula conf (cmp_lt "a1" "a")).
+Proof. exact rename_changes_meaning. Qed.
+Print Assumptions C12_rename_changes_meaning.
+
+(* the exclusion class: if no symbolic constant of the problem equals a 0-ary predicate of the
+   problem (no_clash_problem p, equivalently: rename_conflicting_symbols renames nothing), the
+   emitted chain is true for the original constants *)
+Theorem C12_chain_true_original :
+  forall p : problem, no_clash_problem p -> chain_true_for_originals p.
+Proof. exact chain_true_original. Qed.
+Print Assumptions C12_chain_true_original.
+
+Theorem C12_no_clash_iff_nothing_renamed :
+  forall p : problem, no_clash_problem p <-> renamed_symbols p = [].
+Proof. exact no_clash_problem_iff_nothing_renamed. Qed.
+Print Assumptions C12_no_clash_iff_nothing_renamed.
+
+(* the chain runs through every symbolic constant of the (printed) problem; after a renaming two
+   constants may have been merged (`a` and a user constant `a__s`): the statement is about the
+   printed vocabulary *)
 Theorem C12_chain_covers :
   forall (p : problem) (s : string), In s (problem_symbols p) ->
   In s (sort_strings (problem_symbols p)) /\
@@ -70,6 +114,18 @@ Definition ex_pb : problem :=
 Example C12_ex_chain :
   windows2 (sort_strings (problem_symbols ex_pb)) = [("a", "aB"); ("aB", "b")].
 Proof. vm_compute. reflexivity. Qed.
+(* the witness problem of C12_chain_refuted_after_rename: the chain before and after renaming *)
+Example C12_ex_f8c :
+  windows2 (sort_strings (problem_symbols pb_f8c)) = [("a", "a1")] /\
+  windows2 (sort_strings (problem_symbols (rename_conflicting_symbols pb_f8c))) = [("a1", "a__s")] /\
+  renamed_symbols pb_f8c = ["a"].
+Proof. exact f8c_chain. Qed.
+(* C12_chain_true_original is not vacuous: ex_pb has no clash *)
+Example C12_ex_no_clash : no_clash_problem ex_pb /\ chain_true_for_originals ex_pb.
+Proof.
+  assert (H : no_clash_problem ex_pb) by (apply C12_no_clash_iff_nothing_renamed; vm_compute; reflexivity).
+  split; [exact H|exact (C12_chain_true_original ex_pb H)].
+Qed.
 (* a chain built from the UNSORTED list would assert b < a, which is false *)
 Example C12_ex_unsorted_false :
   forall FI M e, ~ csat FI M e (symbol_order_formula ("b", "a")).
